@@ -15,10 +15,12 @@ package dgram
 import (
 	"encoding/json"
 	"fmt"
+	"hash/fnv"
 	"math/rand"
 	"net"
 	"net/netip"
 	"strconv"
+	"strings"
 	"time"
 
 	"github.com/talostrading/sonic"
@@ -130,7 +132,6 @@ type env struct {
 	op      int
 	capBig  int
 	capSml  int
-	budget  int
 	rbuf    []byte
 	oob     []byte
 	nontriv bool
@@ -142,6 +143,9 @@ type driver struct {
 	sum  tr.Summary
 	rng  *rand.Rand
 	seed int64
+	lane int
+	big  bool
+	mtu  int
 	ifc  *mcIface
 	sid  int
 	i    int
@@ -173,8 +177,11 @@ func (d *driver) drift(what string, step int, pred, obs any) {
 
 func (d *driver) newEnv(cfg Step) (*env, error) {
 	e := &env{d: d, kind: cfg.Kind, socks: map[int]*sock{}, senders: map[int]int{}, groups: map[string]string{},
-		srcs: map[string]string{}, x: -1, ctl: -1, capBig: 9000, capSml: 512, budget: 120000,
+		srcs: map[string]string{}, x: -1, ctl: -1, capBig: 9000, capSml: 512,
 		rbuf: make([]byte, 66000), oob: make([]byte, 256)}
+	if d.big {
+		e.capBig = 65536
+	}
 	ioc, err := sonic.NewIO()
 	if err != nil {
 		return nil, err
@@ -184,7 +191,7 @@ func (d *driver) newEnv(cfg Step) (*env, error) {
 		if d.ifc == nil {
 			return nil, ErrNoMulticast
 		}
-		oct := 1 + int((d.seed*7+int64(d.sid))%250)
+		oct := 1 + int((d.seed*7+int64(d.lane)*41+int64(d.sid))%250)
 		for k, g := range cfg.Groups {
 			e.groups[g] = fmt.Sprintf("239.77.%d.%d", oct, k+1)
 		}
@@ -197,9 +204,21 @@ func (d *driver) newEnv(cfg Step) (*env, error) {
 		}
 		e.srcs["phantom"] = ipStr(ph)
 		// raw receiver: member of every group and of the control group
-		e.x, e.port, err = rawUDP("0.0.0.0", 0, true)
-		if err != nil {
-			return nil, err
+		// the port is taken from a plain socket first (a plain bind conflicts with every
+		// other socket, so nobody else is on it), then re-bound with the reuse options
+		for try := 0; ; try++ {
+			tmp, port, err := rawUDP("0.0.0.0", 0, false)
+			if err != nil {
+				return nil, err
+			}
+			unix.Close(tmp)
+			e.x, e.port, err = rawUDP("0.0.0.0", port, true)
+			if err == nil {
+				break
+			}
+			if try > 20 {
+				return nil, err
+			}
 		}
 		e.xip, e.xport = "0.0.0.0", e.port
 		_ = unix.SetsockoptInt(e.x, unix.IPPROTO_IP, unix.IP_PKTINFO, 1)
@@ -597,6 +616,26 @@ func (e *env) write(s *sock, api string, dst string, dport int, size int, lim bo
 
 // ---- poll ------------------------------------------------------------------
 
+// waitWritable waits (poll(2), no sleeping) until the socket of a parked write
+// is writable. A large datagram sent through the real interface stays charged
+// to the send buffer until the device frees it, which some drivers do only on
+// their next transmission; the sentinel provides that transmission.
+func (e *env) waitWritable(s *sock) error {
+	for k := 0; k < 40; k++ {
+		r, err := pollFd(s.fd, unix.POLLOUT, 100*time.Millisecond)
+		if err != nil {
+			return err
+		}
+		if r {
+			return nil
+		}
+		if _, err := e.flush(); err != nil {
+			return err
+		}
+	}
+	return fmt.Errorf("socket %d did not become writable within 4s (scenario %d)", s.id, e.d.sid)
+}
+
 // poll runs PollOne when the kernel says a parked operation is ready.
 func (e *env) poll() ([]int, bool, error) {
 	ready := false
@@ -608,9 +647,10 @@ func (e *env) poll() ([]int, bool, error) {
 			}
 		}
 		if s.wop != 0 {
-			if r, _ := pollFd(s.fd, unix.POLLOUT, 0); r {
-				ready = true
+			if err := e.waitWritable(s); err != nil {
+				return nil, false, err
 			}
+			ready = true
 		}
 	}
 	if !ready {
@@ -713,10 +753,31 @@ func (e *env) sizeOf(st Step) int {
 			n = 1 + e.d.rng.Intn(e.capSml)
 		}
 	} else {
-		large := []int{513, 514, 1372, 1373, 1472, 1473, 4096, 8192}
+		large := []int{513, 514, e.d.mtu - 28, e.d.mtu - 27, 1472, 1473, 4096, 8192}
+		top := 8192
+		if e.d.big {
+			large = append(large, 16384, 32768, 65506, 65507, 65507)
+			top = 65507
+		}
 		n = large[e.d.rng.Intn(len(large))]
 		if e.d.rng.Intn(3) == 0 {
-			n = e.capSml + 1 + e.d.rng.Intn(8192-e.capSml)
+			n = e.capSml + 1 + e.d.rng.Intn(top-e.capSml)
+		}
+	}
+	return n
+}
+
+// fit keeps a datagram within what every receiver's receive buffer can still
+// take (a dropped datagram would be the kernel's doing, not sonic's): a size
+// that does not fit is replaced by the smallest size of its class.
+func (e *env) fit(n int) int {
+	for _, id := range e.order {
+		s := e.socks[id]
+		if !roomFor(s.fd, n, 72*1024) {
+			if n > e.capSml {
+				return e.capSml + 1 + e.d.rng.Intn(64)
+			}
+			return n
 		}
 	}
 	return n
@@ -836,11 +897,7 @@ func (d *driver) scenario(steps []Step) error {
 			}
 		case "Send":
 			e.did++
-			n := e.sizeOf(st)
-			if n > e.budget/2 && n > 2048 {
-				n = 2048 + d.rng.Intn(2048)
-			}
-			e.budget -= n
+			n := e.fit(e.sizeOf(st))
 			var fd int
 			var dst unix.SockaddrInet4
 			ev := Ev{Ev: "Send", Did: e.did, Len: n, Loop: 1}
@@ -912,8 +969,7 @@ func (d *driver) scenario(steps []Step) error {
 				d.drift("write issued while one is parked", si+1, "idle", "parked")
 				continue
 			}
-			n := e.sizeOf(st)
-			e.budget -= n
+			n := e.fit(e.sizeOf(st))
 			got, err := e.write(s, st.Api, dst, dport, n, st.Lim)
 			if err != nil {
 				return err
@@ -974,8 +1030,19 @@ func Run(a tr.Args) error {
 	d := &driver{w: w, sum: tr.Summary{Component: "dgram"}, rng: rand.New(rand.NewSource(a.Seed)), seed: a.Seed,
 		info: map[string]int{}}
 	d.ifc, _ = findMcIface()
-	if a.Mode == "needmc" && d.ifc == nil {
-		return ErrNoMulticast
+	d.mtu = 1500
+	if d.ifc != nil {
+		if i, err := net.InterfaceByName(d.ifc.name); err == nil && i.MTU >= 576 {
+			d.mtu = i.MTU
+		}
+	}
+	for _, f := range strings.Split(a.Mode, ",") {
+		switch {
+		case f == "big":
+			d.big = true
+		case strings.HasPrefix(f, "lane="):
+			d.lane, _ = strconv.Atoi(f[5:])
+		}
 	}
 	err = tr.Behaviours(a.In, func(idx int, raw json.RawMessage) error {
 		var steps []Step
@@ -984,6 +1051,11 @@ func Run(a tr.Args) error {
 		}
 		d.sid = idx
 		d.sum.Scenarios++
+		// sizes depend on the seed and on the behaviour only, so that a single
+		// behaviour replays with the sizes it had in the full run
+		h := fnv.New64a()
+		_, _ = h.Write(raw)
+		d.rng = rand.New(rand.NewSource(a.Seed ^ int64(h.Sum64()>>1)))
 		return d.scenario(steps)
 	})
 	if err != nil {
